@@ -314,6 +314,9 @@ def run(ck):
     driver = ck.lean_exe("c07driver", "TfelVerif/C07/Driver.lean")
     res = ck.lean(PROPS, PROPS)
     ck.lean_violations(res)
+    if ck.tier == "thorough" and res.ok:
+        for m, log in ck.leanchecker(PROPS):
+            ck.violation("leanchecker:" + m, "leanchecker rejects " + m, {"log": log}, False)
 
     ops = ["lu", "lut", "lusolve", "tsolve", "tsolvex", "tsolvem", "tinv", "qr"]
     per = 40 if ck.quick else 600
